@@ -225,6 +225,43 @@ def vite(c, a, b):
 # ----------------------------------------------------------------------------
 # integer arithmetic with Python semantics
 
+ON_PRODUCT = [None]     # engine hook: called with (x, y, x*y) for symbolic*symbolic int products
+ON_DIV = [None]         # engine hook: (a, b) -> (q, r) with a == q*b + r, for a symbolic divisor
+
+
+def imul(a, b):
+    """int * int; symbolic*symbolic products are reported to the engine so that
+    it can add monotonicity lemma instances (z3's nonlinear integer reasoning
+    does not find them unprompted)."""
+    if isinstance(a, int) and isinstance(b, int):
+        return a * b
+    za, zb = I(a), I(b)
+    if z3.is_int_value(za) or z3.is_int_value(zb):
+        return za * zb
+    from . import nl
+    t = nl.norm_mul(za, zb)
+    if t is None:
+        t = za * zb
+        if ON_PRODUCT[0] is not None:
+            ON_PRODUCT[0](za, zb, t)
+        return t
+    if ON_PRODUCT[0] is not None:
+        for pl in nl.leaves(nl.tree_of(t)):
+            for m in pl.terms:
+                if 2 <= len(m) <= 4:
+                    fs = [pl.atoms[i] for i in m]
+                    full = fs[0]
+                    for f in fs[1:]:
+                        full = full * f
+                    for i in range(len(fs)):
+                        rest = fs[:i] + fs[i + 1:]
+                        B = rest[0]
+                        for f in rest[1:]:
+                            B = B * f
+                        ON_PRODUCT[0](fs[i], B, full, one_way=True)
+    return t
+
+
 def py_floordiv(a, b):
     if isinstance(a, int) and isinstance(b, int):
         return a // b
@@ -233,6 +270,8 @@ def py_floordiv(a, b):
         if b.as_long() > 0:
             return a / b
         return (-a) / (-b)
+    if ON_DIV[0] is not None:
+        return ON_DIV[0](a, b)[0]
     return z3.If(b > 0, a / b, (-a) / (-b))
 
 
@@ -242,6 +281,8 @@ def py_mod(a, b):
     a, b = I(a), I(b)
     if z3.is_int_value(b) and b.as_long() > 0:
         return a % b
+    if ON_DIV[0] is not None:
+        return ON_DIV[0](a, b)[1]
     return a - b * py_floordiv(a, b)
 
 
@@ -336,6 +377,8 @@ def seq_append(s, x):
     sn = s.n
 
     def at(i):
+        if is_z3(i) and is_z3(sn) and i.eq(sn):
+            return x
         return vite(I(i) == I(sn), x, s.at(i))
     n = sn + 1 if isinstance(sn, int) else I(sn) + 1
     return Seq(s.kind, n, at, s.aid)
@@ -349,7 +392,7 @@ def seq_repeat(s, k):
     if isinstance(s.n, int) and isinstance(kk, int):
         n = s.n * kk
     else:
-        n = I(s.n) * I(kk)
+        n = imul(s.n, kk)
 
     def at(i):
         if isinstance(s.n, int) and s.n == 1:
